@@ -39,7 +39,8 @@ def rand_name(rng, avoid=()):
 
 
 def rand_text(rng, attr=False, maxlen=12):
-    """XML 1.0 characters except CR; attribute values additionally without tab/newline."""
+    """XML 1.0 characters; text without CR (parsers normalise it); attribute values may carry
+    tab / newline / CR (the exporters write them as character references)."""
     n = rng.randrange(0, maxlen)
     out = []
     for _ in range(n):
@@ -49,7 +50,7 @@ def rand_text(rng, attr=False, maxlen=12):
         elif r < 0.65:
             out.append(rng.choice(SPECIALS))
         elif r < 0.8:
-            out.append(" " if attr else rng.choice(WS_TEXT))
+            out.append(rng.choice([" ", " ", "\t", "\n", "\r"]) if attr else rng.choice(WS_TEXT))
         else:
             while True:
                 c = rng.choice([rng.randrange(0x20, 0x100), rng.randrange(0x100, 0xD800), rng.randrange(0xE000, 0xFFFE),
@@ -209,7 +210,7 @@ def strip_ids(sn):
     return {k: ([strip_ids(c) for c in v] if k == "kids" else v) for k, v in sn.items() if k != "id"}
 
 
-HEADER = ("From MP Require Import Common.Base Common.Tree Common.XStr Spec.Xml Spec.Infoset Model.XmlOut Model.XmlIn Model.XmlRun.\n"
+HEADER = ("From MP Require Import Common.Base Common.Tree Common.XStr Spec.Xml Spec.Infoset Spec.Mirror Model.XmlOut Model.XmlIn Model.XmlRun.\n"
           "Local Open Scope N_scope.\n")
 
 
